@@ -356,7 +356,13 @@ def run(ck, ix, tier):
         ck.check(bool(store) and p is None, "G-EXH", f"{q.split('.')[1]}|always-stored", fn.loc(), f"stored in {tbl} on every path", f"{q} can return without storing the definition in {tbl}", witness(cfg, p))
     fn = ix.func(PR, "GenericPlainRegistry._add_unit")
     src = norm(fn.node)
-    ck.check("if definition.is_base:" in src and "self._base_units.append(definition.name)" in src and "self._add_dimension(DimensionDefinition(dim_name))" in src, "G-EXH", "_add_unit|base-units-declare-their-dimensions", fn.loc(),
+    from .. import shape as _sh10
+    fnx = _sh10.inline_helpers(ix, fn, skip=("_add_dimension", "_helper_adder", "_helper_single_adder", "_add_unit", "_add_alias"))     # an extracted private helper is looked through
+    srcx = norm(fnx)
+    is_base = lambda a_: isinstance(a_, ast.Attribute) and a_.attr == "is_base"
+    app = [c_ for c_ in ast.walk(fnx) if isinstance(c_, ast.Call) and norm(c_.func) == "self._base_units.append"]
+    addd = [c_ for c_ in ast.walk(fnx) if isinstance(c_, ast.Call) and norm(c_.func) == "self._add_dimension" and c_.args and isinstance(c_.args[0], ast.Call) and call_name(c_.args[0]) == "DimensionDefinition"]
+    ck.check(len(app) == 1 and norm(app[0].args[0]) == "definition.name" and _sh10.holds_at(app[0], fnx, is_base, True) and len(addd) >= 1 and all(_sh10.holds_at(c_, fnx, is_base, True) for c_ in addd) and "not in self._dimensions" in srcx, "G-EXH", "_add_unit|base-units-declare-their-dimensions", fn.loc(),
              "base units are recorded and declare their dimensions", "base units no longer declare their dimensions on the fly")
     fn = ix.func(PR, "GenericPlainRegistry._helper_single_adder")
     cfgs = cfg_of(fn)
@@ -378,8 +384,9 @@ def run(ck, ix, tier):
     fn = ix.func("pint.util", "solve_dependencies")
     ck.analysed(fn)
     cfg = cfg_of(fn)
-    t = [n.id for n in cfg.nodes if n.kind == "test" and norm(n.ast) == "not t"]
-    ck.check(bool(t) and all(edge_leads_only_to_raise(cfg, x, "t") is None for x in t), "G-DOM", "solve_dependencies|cycle-raises", fn.loc(), "an empty ready set (cycle) raises ValueError", "a dependency cycle no longer raises")
+    ys = [y.value.id for y in walk_local(fn.node) if isinstance(y, ast.Yield) and isinstance(y.value, ast.Name)]
+    empty = _sh10.guard_edges(cfg, lambda a_: isinstance(a_, ast.Name) and a_.id in ys, want=False)   # edges on which the yielded "ready" set is known to be empty
+    ck.check(bool(ys) and bool(empty) and all(edge_leads_only_to_raise(cfg, x, lab) is None for (x, lab) in empty), "G-DOM", "solve_dependencies|cycle-raises", fn.loc(), "an empty ready set (cycle) raises ValueError", "a dependency cycle (empty layer) no longer raises")
     parser_entry_rule(ck, ix)
     from .C08 import casei_writers_rule
     casei_writers_rule(ck, ix)  # an alias added by @alias is indexed like an inline alias
